@@ -306,8 +306,8 @@ partial def reasons (top spine : Bool) : S → List String
   | .flt cks => numReasons cks
   | .enum vs => ifNot (!vs.isEmpty) "empty-enum"
   | .lit vs => ifNot (litHomog vs) "literal-mixed-kinds"
-  | .opt s => ifNot s.docNullable "optional-accepts-null" ++ reasons top spine s
-  | .nul s => reasons top spine s
+  | .opt s => ifNot s.docNullable "optional-accepts-null" ++ reasons top false s
+  | .nul s => reasons top false s
   | .obj mode ca part cks shape =>
       (match mode with | .strip => ifNot spine "nested-strip-object" | _ => [])
       ++ ifNot (!part) "partial-keeps-required"
@@ -387,7 +387,7 @@ def handle : List String → String
         let p := accepts s x
         let rs := dedup (reasons true true s ++ instReasons x)
         -- self-check: the itemised reasons are empty exactly when the theorem's hypotheses hold
-        let coherent := (rs.isEmpty == (repr true s && instOK x))
+        let coherent := (rs.isEmpty == (reprTop true s && instOK x))
         b2s p ++ " " ++ (if p then b2s (jsValid j (out s x)) else "-") ++ " " ++ b2s (jsValid j x)
           ++ "\t" ++ (if coherent then "" else "INCOHERENT,") ++ ",".intercalate rs
       | _ => "bad-op"
